@@ -96,12 +96,52 @@ func (g *Graph) Formula(e ast.Expr, pol bool, at Point) *Form {
 	return fr.form(e, pol, at)
 }
 
+// isConstLike: literals, nil, and references to package-level constants or
+// variables (pkg.Name) sort after everything else in eq(..) atoms.
 func isConstLike(s string) bool {
 	if s == "nil" || s == "true" || s == "false" || s == "" {
 		return true
 	}
 	c := s[0]
-	return c == '"' || c == '\'' || (c >= '0' && c <= '9') || c == '-'
+	if c == '"' || c == '\'' || (c >= '0' && c <= '9') || c == '-' {
+		return true
+	}
+	t := strings.TrimPrefix(s, "var:")
+	dot := strings.LastIndex(t, ".")
+	if dot <= 0 {
+		return false
+	}
+	for _, r := range t {
+		if !(r == '/' || r == '.' || r == '_' || r == '-' || (r >= '0' && r <= '9') || (r >= 'a' && r <= 'z') || (r >= 'A' && r <= 'Z')) {
+			return false
+		}
+	}
+	first := t
+	if i := strings.Index(t, "."); i >= 0 {
+		first = t[:i]
+	}
+	switch {
+	case first == "recv" || first == "outer":
+		return false
+	case len(first) == 2 && (first[0] == 'p' || first[0] == 'r') && first[1] >= '0' && first[1] <= '9':
+		return false
+	}
+	// exactly one dot after the package path: pkg/path.Name
+	return !strings.Contains(t[dot+1:], "/") && strings.Count(t[strings.LastIndex(t, "/")+1:], ".") == 1
+}
+
+// eqOrder puts the constant-like side second; ties are broken lexically.
+func eqOrder(a, b string) (string, string) {
+	ca, cb := isConstLike(a), isConstLike(b)
+	switch {
+	case ca && !cb:
+		return b, a
+	case !ca && cb:
+		return a, b
+	case b < a:
+		return b, a
+	}
+	return a, b
 }
 
 func (fr *former) norm(e ast.Expr, at Point, vars *[]*types.Var) string {
@@ -178,9 +218,7 @@ func (fr *former) form(e ast.Expr, pol bool, at Point) *Form {
 				}
 				return fr.atom(s, pol, vars)
 			}
-			if isConstLike(a) && !isConstLike(b) || (!isConstLike(a) && !isConstLike(b) && b < a) {
-				a, b = b, a
-			}
+			a, b = eqOrder(a, b)
 			return fr.atom("eq("+a+","+b+")", pol, vars)
 		case token.LSS, token.GEQ, token.GTR, token.LEQ:
 			var vars []*types.Var
@@ -322,9 +360,7 @@ func (g *Graph) EdgeForm(e Edge) *Form {
 					var vars []*types.Var
 					tagAt, _ := g.Where(sw.Tag)
 					a, bb := fr.norm(sw.Tag, tagAt, &vars), fr.norm(cond, at, &vars)
-					if isConstLike(a) && !isConstLike(bb) || (!isConstLike(a) && !isConstLike(bb) && bb < a) {
-						a, bb = bb, a
-					}
+					a, bb = eqOrder(a, bb)
 					return fr.atom("eq("+a+","+bb+")", pol, vars)
 				}
 			}
